@@ -32,3 +32,14 @@ package routing
 //@ loop 0 invariant visited(data.Peers, n) ==> has(dtlsr.nodeIndex, n) @thorough
 //@ loop 1 invariant dtlsr.nodeIndex != nil && len(dtlsr.indexNode) == dtlsr.length && 0 <= dtlsr.length
 //@ loop 1 invariant visited(data.Peers, n) ==> has(dtlsr.nodeIndex, n) @thorough
+
+// A unicast bundle is handed only to the connected sender whose peer is the routing table's next hop for the bundle's
+// destination, and is then released (delete); without a table entry, or with the next hop not connected, nobody is
+// selected and the bundle is kept.
+// govc:func (*DTLSR).SenderForBundle property C20
+//@ requires dtlsr.c != nil && dtlsr.c.store != nil && dtlsr.c.claManager != nil && dtlsr.routingTable != nil && bp.bndl != nil && blocksNonNil(*bp.bndl)
+//@ ensures bp.bndl.PrimaryBlock.Destination != dtlsr.broadcastAddress ==> len(sender) <= 1
+//@ ensures bp.bndl.PrimaryBlock.Destination != dtlsr.broadcastAddress && len(sender) == 1 ==> delete && has(dtlsr.routingTable, bp.bndl.PrimaryBlock.Destination) && sender[0].GetPeerEndpointID() == dtlsr.routingTable[bp.bndl.PrimaryBlock.Destination]
+//@ ensures bp.bndl.PrimaryBlock.Destination != dtlsr.broadcastAddress && !has(dtlsr.routingTable, bp.bndl.PrimaryBlock.Destination) ==> len(sender) == 0
+//@ ensures bp.bndl.PrimaryBlock.Destination != dtlsr.broadcastAddress && len(sender) == 0 ==> !delete
+//@ loop 0 invariant 0 <= rangeindex + 1
